@@ -61,7 +61,8 @@ void __g2c_terminate(void)
   __CPROVER_assert(0, "exception escapes a noexcept region: std::terminate()");
   __CPROVER_assume(0);
 }
-void __g2c_resume(void) { /* resx: exception keeps propagating to the caller */ }
+void __g2c_landing_pad(void) { __exc = 0; /* in flight: landing-pad code runs with the flag down */ }
+void __g2c_resume(void) { __exc = 1; /* resx: the exception resumes propagating */ }
 
 void *__cxa_allocate_exception(unsigned long n)
 {
